@@ -46,6 +46,8 @@ func runC20(e *Env) {
 	}
 	ruleC20Dir(e)
 	ruleC20Pred(e)
+	ruleC20Support(e)
+	e.S.Floor("C20.support", 4)
 	for _, r := range []string{"C20.iface", "C20.dir", "C20.hooks", "C20.safe", "C20.verdict"} {
 		e.S.Floor(r, 6)
 	}
@@ -369,6 +371,8 @@ func ruleC20Helper(e *Env, h helperSpec) {
 			e.S.Bad("C20.hooks", site, "hooks", "the Before and After hooks are not both run through callForCase", pos, "")
 		case !precedes(before, safe) || !precedes(safe, after):
 			e.S.Bad("C20.hooks", site, "hooks", "Before must precede and After must follow the marshal call", pos, "")
+		case bypasses(safe.Block(), after.Block()):
+			e.S.Bad("C20.hooks", site, "hooks", "some path from the marshal call to the next case does not run the After hook: a failing After hook goes unreported on that path", e.posOf(after), "")
 		case !checked(before) || !checked(after):
 			e.S.Bad("C20.hooks", site, "hooks", "a hook's error is not asserted with NoError on t, or its failure does not skip the case", pos, "")
 		case cfc == nil || !hasRecoverDefer(cfc):
@@ -749,5 +753,232 @@ func predReports(e *Env, rule, site string, cl *ssa.Function) {
 		e.S.Bad(rule, site, "reports", "the predicate can answer false without any assertion on t having failed, so an unmet predicate is not reported: return at "+strings.Join(bad, ", "), e.Pos(cl), "")
 	default:
 		e.S.Ok(rule, site, "reports", fmt.Sprintf("%d returns: each is an assertion's own result, a constant true, or lies behind a failed assertion on t", n), e.Pos(cl))
+	}
+}
+
+// bypasses: some path leaves `from` and reaches the enclosing loop's header (or a return) without entering `via`.
+func bypasses(from, via *ssa.BasicBlock) bool {
+	if from == via {
+		return false
+	}
+	seen := map[*ssa.BasicBlock]bool{from: true, via: true}
+	work := append([]*ssa.BasicBlock(nil), from.Succs...)
+	for len(work) > 0 {
+		b := work[len(work)-1]
+		work = work[:len(work)-1]
+		if b == from {
+			return true
+		}
+		if seen[b] {
+			continue
+		}
+		seen[b] = true
+		if b.Dominates(from) {
+			return true // back at the loop header
+		}
+		if _, ret := b.Instrs[len(b.Instrs)-1].(*ssa.Return); ret {
+			return true
+		}
+		work = append(work, b.Succs...)
+	}
+	return false
+}
+
+// controlConds: the branch conditions that decide whether block b runs (ifs on the dominator chain with exactly one
+// successor leading to b), with the polarity taken.
+type ctlCond struct {
+	cond ssa.Value
+	pos  bool
+}
+
+func controlConds(b *ssa.BasicBlock) []ctlCond {
+	var out []ctlCond
+	for d := b.Idom(); d != nil; d = d.Idom() {
+		iff, ok := d.Instrs[len(d.Instrs)-1].(*ssa.If)
+		if !ok {
+			continue
+		}
+		t, f := d.Succs[0], d.Succs[1]
+		tl := (t == b || t.Dominates(b)) && len(t.Preds) == 1
+		fl := (f == b || f.Dominates(b)) && len(f.Preds) == 1
+		if tl != fl {
+			out = append(out, ctlCond{iff.Cond, tl})
+		}
+	}
+	return out
+}
+
+// ruleC20Support: helperNew / helperAssertEmpty / helperAssertEqual / castToFunc.
+func ruleC20Support(e *Env) {
+	const rule = "C20.support"
+	isNilTest := func(v ssa.Value, p *ssa.Parameter) bool {
+		bo, ok := v.(*ssa.BinOp)
+		return ok && (bo.Op == token.EQL || bo.Op == token.NEQ) && derivesFrom(bo.X, p) && flow.IsNilConst(bo.Y)
+	}
+	// ---- helperNew
+	if fn := e.Fn(rule, "test", "helperNew"); fn != nil && len(fn.Params) == 2 {
+		site := flow.FnName(fn)
+		helper, value := fn.Params[0], fn.Params[1]
+		var newCall *ssa.Call
+		for _, b := range fn.Blocks {
+			for _, in := range b.Instrs {
+				if c, ok := in.(*ssa.Call); ok && calleeName(&c.Call) == "reflect.New" {
+					newCall = c
+				}
+			}
+		}
+		valueOfValue := func(v ssa.Value) bool {
+			c, ok := v.(*ssa.Call)
+			return ok && calleeName(&c.Call) == "reflect.ValueOf" && len(c.Call.Args) == 1 && derivesFrom(c.Call.Args[0], value)
+		}
+		typeOfValue := func(v ssa.Value) bool { // reflect.TypeOf(value) or reflect.ValueOf(value).Type()
+			c, ok := v.(*ssa.Call)
+			if !ok || len(c.Call.Args) != 1 {
+				return false
+			}
+			switch calleeName(&c.Call) {
+			case "reflect.TypeOf":
+				return derivesFrom(c.Call.Args[0], value)
+			case "(reflect.Value).Type":
+				return valueOfValue(c.Call.Args[0])
+			}
+			return false
+		}
+		kindIsPtr := func(v ssa.Value) bool {
+			bo, ok := v.(*ssa.BinOp)
+			if !ok || bo.Op != token.EQL {
+				return false
+			}
+			k, ok := bo.X.(*ssa.Call)
+			if !ok {
+				return false
+			}
+			byType := k.Call.IsInvoke() && k.Call.Method.Name() == "Kind" && typeOfValue(k.Call.Value)
+			byValue := calleeName(&k.Call) == "(reflect.Value).Kind" && len(k.Call.Args) == 1 && valueOfValue(k.Call.Args[0])
+			if !byType && !byValue {
+				return false
+			}
+			n, ok := flow.ConstInt(bo.Y)
+			return ok && n == 22 // reflect.Pointer
+		}
+		switch {
+		case newCall == nil:
+			e.S.Bad(rule, site, "fresh target", "no reflect.New: a pointer-typed T gets no fresh target to unmarshal into", e.Pos(fn), "")
+		default:
+			// argument: TypeOf(value).Elem()
+			argOK := false
+			if el, ok := newCall.Call.Args[0].(*ssa.Call); ok && el.Call.IsInvoke() && el.Call.Method.Name() == "Elem" && typeOfValue(el.Call.Value) {
+				argOK = true
+			}
+			extra := ""
+			sawKind, sawNil := false, false
+			for _, cc := range controlConds(newCall.Block()) {
+				switch {
+				case kindIsPtr(cc.cond) && cc.pos:
+					sawKind = true
+				case isNilTest(cc.cond, helper):
+					sawNil = true
+				default:
+					extra = cc.cond.String()
+				}
+			}
+			switch {
+			case !argOK:
+				e.S.Bad(rule, site, "fresh target", "reflect.New is not applied to the element type of T (reflect.TypeOf(value).Elem())", e.posOf(newCall), "")
+			case extra != "" || !sawKind || !sawNil:
+				e.S.Bad(rule, site, "fresh target", "whether a fresh target is allocated depends on something other than `helper == nil` and the static kind of T ("+extra+"): for some case values a pointer-typed T is unmarshalled into nil", e.posOf(newCall), "nil pointer Value")
+			default:
+				// the allocation is what is returned
+				ret := false
+				for _, r := range flow.Returns(fn) {
+					if len(r.Results) == 1 {
+						if ta, ok := r.Results[0].(*ssa.TypeAssert); ok {
+							if ic, ok := ta.X.(*ssa.Call); ok && calleeName(&ic.Call) == "(reflect.Value).Interface" && len(ic.Call.Args) == 1 && ic.Call.Args[0] == ssa.Value(newCall) {
+								ret = true
+							}
+						}
+					}
+				}
+				if ret {
+					e.S.Ok(rule, site, "fresh target", "helper == nil ∧ kind(T) = pointer ⇒ returns reflect.New(elem(T)).Interface().(T); decided by the type only", e.posOf(newCall))
+				} else {
+					e.S.Bad(rule, site, "fresh target", "the freshly allocated target is not what is returned", e.posOf(newCall), "")
+				}
+			}
+		}
+		// helper != nil ⇒ helper.New(value)
+		okNew := false
+		for _, r := range flow.Returns(fn) {
+			if len(r.Results) == 1 {
+				if c, ok := r.Results[0].(*ssa.Call); ok && c.Call.IsInvoke() && c.Call.Method.Name() == "New" && c.Call.Value == ssa.Value(helper) && len(c.Call.Args) == 1 && c.Call.Args[0] == ssa.Value(value) {
+					okNew = true
+				}
+			}
+		}
+		if okNew {
+			e.S.Ok(rule, site, "helper.New", "with a TypeHelper returns helper.New(value)", e.Pos(fn))
+		} else {
+			e.S.Bad(rule, site, "helper.New", "with a TypeHelper the target is not helper.New(value)", e.Pos(fn), "")
+		}
+	}
+	// ---- helperAssertEmpty / helperAssertEqual
+	for _, h := range []struct {
+		name, assert, method string
+		nvals               int
+	}{{"helperAssertEmpty", "github.com/stretchr/testify/assert.Empty", "AssertEmpty", 1}, {"helperAssertEqual", "github.com/stretchr/testify/assert.Equal", "AssertEqual", 2}} {
+		fn := e.Fn(rule, "test", h.name)
+		if fn == nil || len(fn.Params) != 3+h.nvals {
+			if fn != nil {
+				e.S.Unk(rule, "test."+h.name, "assertion", "unexpected signature", e.Pos(fn))
+			}
+			continue
+		}
+		site := flow.FnName(fn)
+		helper, t := fn.Params[0], fn.Params[1]
+		vals := fn.Params[2 : 2+h.nvals]
+		var direct, via *ssa.Call
+		for _, b := range fn.Blocks {
+			for _, in := range b.Instrs {
+				c, ok := in.(*ssa.Call)
+				if !ok {
+					continue
+				}
+				if calleeName(&c.Call) == h.assert {
+					direct = c
+				}
+				if c.Call.IsInvoke() && c.Call.Method.Name() == h.method && c.Call.Value == ssa.Value(helper) {
+					via = c
+				}
+			}
+		}
+		argsOK := func(c *ssa.Call, off int) bool {
+			if c == nil || len(c.Call.Args) < off+1+h.nvals || !derivesFrom(c.Call.Args[off], t) {
+				return false
+			}
+			for i, v := range vals {
+				if !derivesFrom(c.Call.Args[off+1+i], v) {
+					return false
+				}
+			}
+			return true
+		}
+		branchOK := func(c *ssa.Call, wantNil bool) bool {
+			for _, cc := range controlConds(c.Block()) {
+				if isNilTest(cc.cond, helper) {
+					bo := cc.cond.(*ssa.BinOp)
+					isNil := (bo.Op == token.EQL) == cc.pos
+					return isNil == wantNil
+				}
+			}
+			return false
+		}
+		switch {
+		case direct == nil || !argsOK(direct, 0) || !branchOK(direct, true):
+			e.S.Bad(rule, site, "assertion", "without a TypeHelper the values are not asserted with "+h.assert[strings.LastIndex(h.assert, "/")+1:]+"(t, values…) in order", e.Pos(fn), "")
+		case via == nil || !argsOK(via, 0) || !branchOK(via, false):
+			e.S.Bad(rule, site, "assertion", "with a TypeHelper the values are not handed to helper."+h.method+"(t, values…) in order", e.Pos(fn), "")
+		default:
+			e.S.Ok(rule, site, "assertion", "helper == nil ⇒ "+h.assert[strings.LastIndex(h.assert, "/")+1:]+"(t, values…); otherwise helper."+h.method+"(t, values…)", e.Pos(fn))
+		}
 	}
 }
